@@ -137,14 +137,27 @@ func idsToDescs(ids []int64) []string {
 	return out
 }
 
+// c19Alias selects how natives with a result list build it: 0 a fresh slice, 1 in place in the
+// leading argument slots (the returned slice aliases args), 2 in place in the trailing argument slots.
+// A native may legitimately reuse its argument buffer; the results must arrive all the same.
+var c19Alias int
+
 func mkNative(e embedRec, lg *nativeLog) goat.Value {
-	results := func() []goat.Value {
+	alias := c19Alias
+	resultsIn := func(args []goat.Value) []goat.Value {
 		rs := make([]goat.Value, e.Prod)
+		if alias == 1 && e.Prod > 0 && e.Prod <= len(args) {
+			rs = args[:e.Prod]
+		} else if alias == 2 && e.Prod > 0 && e.Prod <= len(args) {
+			rs = args[len(args)-e.Prod:]
+		}
 		for i := range rs {
 			rs[i] = goat.Int(200 + i + 1)
 		}
 		return rs
 	}
+	results := func() []goat.Value { return resultsIn(nil) }
+	_ = results
 	rec := func(fixed, tail []goat.Value) {
 		lg.calls = append(lg.calls, [2][]string{valsToDescs(fixed), valsToDescs(tail)})
 		if e.Raise {
@@ -161,11 +174,11 @@ func mkNative(e embedRec, lg *nativeLog) goat.Value {
 	case "Nto1":
 		return goat.NewFunc(e.Argc, 1, func(vm *goat.VM, args []goat.Value) goat.Value { rec(args, nil); return goat.Int(201) })
 	case "NtoM":
-		return goat.NewFunc(e.Argc, e.Prod, func(vm *goat.VM, args []goat.Value) []goat.Value { rec(args, nil); return results() })
+		return goat.NewFunc(e.Argc, e.Prod, func(vm *goat.VM, args []goat.Value) []goat.Value { rec(args, nil); return resultsIn(args) })
 	case "NVtoM":
 		return goat.NewFunc(e.Argc+1, e.Prod, func(vm *goat.VM, args []goat.Value, vargs ...goat.Value) []goat.Value {
 			rec(args, vargs)
-			return results()
+			return resultsIn(args)
 		})
 	}
 	panic("form")
@@ -271,7 +284,7 @@ var c19Contexts = []c19Ctx{
 }
 
 func checkC19(c *Ctx) {
-	c.Rule = "cases = every (NewFunc form, declared arity 0..6, surplus variadic arguments 0..3, spread call or not, results produced 0..4, results requested 0..produced+1, operands below 0..2, native raises or not) enumerated by TLC from Embed.tla, each replayed in every context able to express it (7 script contexts + host Func + host Call); plus constructor/accessor round trips over boundary and seeded random scalars; distinct_nontrivial = replayed (case, context) pairs with at least one argument or result"
+	c.Rule = "cases = every (NewFunc form, declared arity 0..6, surplus variadic arguments 0..3, spread call or not, results produced 0..4, results requested 0..produced+1, operands below 0..2, native raises or not) enumerated by TLC from Embed.tla, each replayed in every context able to express it (7 script contexts + host Func + host Call); a failure family (9 ways a script function fails x 5 routes incl. nested re-entry through natives x Eval/Load); natives build their result list in a fresh slice or in place in their argument buffer (leading / trailing slots); plus constructor/accessor round trips over boundary and seeded random scalars; distinct_nontrivial = replayed (case, context) pairs with at least one argument or result"
 	c.Assumptions = []string{"natives record copies of the arguments they were handed", "TLC evaluates Embed.tla / FixedWidth.tla as written"}
 	dir := c.specWorkDir("mc")
 	res := c.runTLC(dir, TLCOpts{Module: "Embed", Cfg: "MC_Embed.cfg", Workers: 8})
@@ -347,6 +360,7 @@ func checkC19(c *Ctx) {
 		}
 		for _, prof := range profiles {
 			c19Profile = prof
+			c19Alias = (pi + prof) % 3
 			for _, cx := range c19Contexts {
 				if !cx.applicable(e) {
 					continue
@@ -435,6 +449,103 @@ func checkC19(c *Ctx) {
 		c.Evaluations++
 		if err == nil || !strings.Contains(err.Error(), "boom from B") {
 			c.violate(hashKey("nested-raise"), fmt.Sprintf("error raised in a nested native call did not surface at the outer Eval: err=%v out=%q", err, buf.String()), map[string]any{"error": fmt.Sprint(err)})
+		}
+	}
+
+	// failure family: script functions that fail in different ways (run-time faults, explicit panic,
+	// declared results but no return on the path taken, wrong result count) x how they are reached
+	// (host Call, host Func, nested through a native that re-enters with Func and hands the error on,
+	// nested two levels deep, from top-level Eval code) x loaded by Eval / Load: every one must come
+	// back as the error of the outermost call - never a Go panic, never a silent success
+	{
+		failing := []struct{ name, decl, marker string }{
+			{"idx", "func idx(x int) int { xs := []int{1}; return xs[x+5] }", "index out of range"},
+			{"div", "func div(x int) int { z := 0; return x / z }", "divide by zero"},
+			{"boom", "func boom(x int) int { panic(\"boom in script\") }", "boom in script"},
+			{"nilmap", "func nilmap(x int) int { var m map[int]int; m[x] = 1; return 1 }", ""},
+			{"nilptr", "func nilptr(x int) int { var t *T; return t.X + x }", ""},
+			{"noret", "func noret(x int) int { if x > 0 { return 1 } }", ""},
+			{"noret2", "func noret2(x int) int { for i := 0; i < x; i++ { return i } }", ""},
+			{"empty", "func empty(x int) int { }", ""},
+			{"deep", "func deep(x int) int { if x > 3 { return idx(x) }; return deep(x + 1) }", "index out of range"},
+		}
+		var src strings.Builder
+		src.WriteString("type T struct { X int }\n")
+		for _, f := range failing {
+			src.WriteString(f.decl + "\n")
+		}
+		src.WriteString("func ok(x int) int { return x + 1 }\n")
+		mkVM := func(load bool) *goat.VM {
+			vm := goat.New(goat.WithStdout(&bytes.Buffer{}))
+			vm.Set("host.Apply", goat.NewFunc(2, 1, func(v2 *goat.VM, a []goat.Value) goat.Value {
+				rets, err := v2.Func(a[0], 1, a[1])
+				if err != nil {
+					panic(err)
+				}
+				return rets[0]
+			}))
+			var err error
+			if load {
+				err = vm.Load(mapFS(map[string]string{"main/main.go": "package main\nimport \"host\"\n" + src.String() + "func via(f func(int) int, x int) int { return host.Apply(f, x) }\nfunc via2(f func(int) int, x int) int { return via(f, x) + host.Apply(ok, x) }\n"}), "main")
+			} else {
+				_, err = vm.Eval(fstest.MapFS{}, "fail.go", "import \"host\"\n"+src.String()+"func via(f func(int) int, x int) int { return host.Apply(f, x) }\nfunc via2(f func(int) int, x int) int { return via(f, x) + host.Apply(ok, x) }\n")
+			}
+			if err != nil {
+				fatalf("the failure-family program does not load: %v", err)
+			}
+			return vm
+		}
+		for _, load := range []bool{false, true} {
+			for _, f := range failing {
+				for _, route := range []string{"Call", "Func", "nested", "nested2", "eval"} {
+					if route == "eval" && load {
+						continue
+					}
+					vm := mkVM(load)
+					var err error
+					var rets []goat.Value
+					pan := ""
+					func() {
+						defer func() {
+							if r := recover(); r != nil {
+								pan = fmt.Sprint(r)
+							}
+						}()
+						goat.VerifSetBudget(200000)
+						defer goat.VerifSetBudget(-1)
+						switch route {
+						case "Call":
+							rets, err = vm.Call("main."+f.name, 1, goat.Int(0))
+						case "Func":
+							rets, err = vm.Func(vm.Get("main."+f.name), 1, goat.Int(0))
+						case "nested":
+							rets, err = vm.Call("main.via", 1, vm.Get("main."+f.name), goat.Int(0))
+						case "nested2":
+							rets, err = vm.Call("main.via2", 1, vm.Get("main."+f.name), goat.Int(0))
+						case "eval":
+							rets, err = vm.Eval(fstest.MapFS{}, "top.go", "r := via("+f.name+", 0)\nr")
+						}
+					}()
+					c.Evaluations++
+					key := fmt.Sprintf("fail|%s|%s|%v", f.name, route, load)
+					rp := map[string]any{"function": f.decl, "route": route, "loaded_with": map[bool]string{true: "Load", false: "Eval"}[load], "error": fmt.Sprint(err), "panic": pan}
+					switch {
+					case pan != "":
+						c.violate(hashKey(key), fmt.Sprintf("failing script function %s reached through %s: a Go panic escaped instead of an error: %s", f.name, route, clip(pan, 200)), rp)
+					case err == nil:
+						c.violate(hashKey(key), fmt.Sprintf("failing script function %s reached through %s: no error surfaced (returned %v)", f.name, route, valsToDescs(rets)), rp)
+					case f.marker != "" && !strings.Contains(err.Error(), f.marker):
+						c.violate(hashKey(key), fmt.Sprintf("failing script function %s reached through %s: the surfaced error is not the nested call's (%q lacks %q)", f.name, route, firstLine(err.Error()), f.marker), rp)
+					default:
+						c.TracesVsImpl++
+					}
+					// the VM stays usable after the failure
+					r2, e2 := vm.Call("main.ok", 1, goat.Int(41))
+					if e2 != nil || len(r2) != 1 || r2[0].Int() != 42 {
+						c.violate(hashKey(key+"|after"), fmt.Sprintf("after the failure of %s through %s the VM no longer runs a plain call: %v %v", f.name, route, valsToDescs(r2), e2), rp)
+					}
+				}
+			}
 		}
 	}
 
